@@ -363,12 +363,23 @@ class CFG:
                     names.add(render(n.children[0]))
                 elif n.k in ("CompoundAssignOperator",) or (n.k == "UnaryOperator" and n.j.get("op") in ("++", "--")):
                     names.add(render(n.children[0]))
+                elif n.k == "CallExpr":
+                    # f(&x): the callee may store into x
+                    for a in n.call_args():
+                        a0 = a.strip()
+                        if a0.k == "UnaryOperator" and a0.j.get("op") == "&":
+                            names.add(render(a0.children[0]))
             kills[b.id] = names
         init = (start, frozenset((init_facts or {}).items()))
         prev = {init: None}
         queue = [init]
+        budget = 400000
         while queue:
             cur = queue.pop(0)
+            budget -= 1
+            if budget < 0:
+                from .facts import Inconclusive
+                raise Inconclusive("%s: path exploration budget exceeded (too many distinct fact sets)" % self.fn.name)
             b, facts = cur
             if accept is None and b == target_block and not (nonempty and cur is init):
                 path = []
@@ -380,25 +391,31 @@ class CFG:
             fd = dict(facts)
             facts_before = dict(facts)
             first = cur is init and start_index > 0
-            if not first:
-                for nm in kills[b]:
+            # the elements of the block in order: a store (or a call that is handed &x) first kills what was known about the
+            # variable, a constant assignment then establishes a fact (new_key = false; ...)
+            for n in (self.blocks[b].elems[start_index:] if first else self.blocks[b].elems):
+                knames = []
+                if n.k == "BinaryOperator" and n.j.get("op") == "=":
+                    knames.append(render(n.children[0]))
+                elif n.k in ("CompoundAssignOperator",) or (n.k == "UnaryOperator" and n.j.get("op") in ("++", "--")):
+                    knames.append(render(n.children[0]))
+                elif n.k == "CallExpr":
+                    for a9 in n.call_args():
+                        a0 = a9.strip()
+                        if a0.k == "UnaryOperator" and a0.j.get("op") == "&":
+                            knames.append(render(a0.children[0]))
+                stepped = None
+                if n.k == "UnaryOperator" and n.j.get("op") in ("++", "--") and knames and isinstance(fd.get("=" + knames[0]), int) and track(knames[0]):
+                    stepped = (knames[0], fd["=" + knames[0]] + (1 if n.j["op"] == "++" else -1))
+                for nm in knames:
                     for a in list(fd):
                         if nm and _mentions(a, nm):
                             del fd[a]
-            else:
-                # resuming in the middle of the start block: only the stores behind the resume point kill
-                for n in self.blocks[b].elems[start_index:]:
-                    nm = None
-                    if n.k == "BinaryOperator" and n.j.get("op") == "=":
-                        nm = render(n.children[0])
-                    elif n.k in ("CompoundAssignOperator",) or (n.k == "UnaryOperator" and n.j.get("op") in ("++", "--")):
-                        nm = render(n.children[0])
-                    if nm:
-                        for a in list(fd):
-                            if _mentions(a, nm):
-                                del fd[a]
-            # constant assignments to tracked flag variables establish facts (new_key = false; ...)
-            for n in (self.blocks[b].elems[start_index:] if first else self.blocks[b].elems):
+                if stepped is not None and (not (-2 <= stepped[1] <= 4) or any(a9.k in ("ForStmt", "WhileStmt", "DoStmt") for a9 in n.ancestors())):
+                    stepped = None                          # a counter stepped in a loop is not followed (the exploration would not end)
+                if stepped is not None:
+                    fd["=" + stepped[0]] = stepped[1]       # x++ / x-- on a known value
+                    fd[stepped[0]] = bool(stepped[1])
                 if n.k == "BinaryOperator" and n.j.get("op") == "=":
                     nm = render(n.children[0])
                     cv = n.children[1].const_value()
@@ -438,6 +455,23 @@ class CFG:
                                     fd[d["name"]] = fd[render(ini)]
                                     if "=" + render(ini) in fd:
                                         fd["=" + d["name"]] = fd["=" + render(ini)]
+            # p = g(.., &err): when g is known to set *err to a failure code whenever it returns NULL, a later `p == NULL` edge
+            # tells that err is non-zero (Program.null_error_summaries)
+            summ = self._null_error_summaries()
+            if summ:
+                for n in (self.blocks[b].elems[start_index:] if first else self.blocks[b].elems):
+                    tgt, call = None, None
+                    if n.k == "BinaryOperator" and n.j.get("op") == "=" and n.children[0].strip().k == "DeclRefExpr" and n.children[1].strip().k == "CallExpr":
+                        tgt, call = render(n.children[0]), n.children[1].strip()
+                    elif n.k == "DeclStmt":
+                        for d in n.j.get("decls", []):
+                            if d.get("init", -1) >= 0 and self.fn.nodes[d["init"]].strip().k == "CallExpr":
+                                tgt, call = d["name"], self.fn.nodes[d["init"]].strip()
+                    if call is not None and call.j.get("callee") in summ:
+                        ei = summ[call.j["callee"]]
+                        a = call.call_args()
+                        if ei < len(a) and a[ei].strip().k == "UnaryOperator" and a[ei].strip().j.get("op") == "&":
+                            fd["?" + tgt] = render(a[ei].strip().children[0])
             if accept is not None and accept(b, fd):
                 path = []
                 while prev[cur] is not None:
@@ -475,6 +509,10 @@ class CFG:
                     nf[lit.atom] = lit.pol
                     if lit.kind == "truth" and not lit.pol and lit.node.k == "DeclRefExpr":
                         nf["=" + lit.atom] = 0
+                        if "?" + lit.atom in nf:
+                            ev = nf["?" + lit.atom]
+                            nf[ev] = True           # the callee reported why it returned NULL
+                            nf.pop("=" + ev, None)
                     elif lit.kind == "eq" and lit.pol:
                         for x, y in ((lit.lhs, lit.rhs), (lit.rhs, lit.lhs)):
                             if x.strip().k == "DeclRefExpr" and x.const_value() is None and y.const_value() is not None:
@@ -485,6 +523,43 @@ class CFG:
                     prev[nxt] = (cur, (b, i))
                     queue.append(nxt)
         return None
+
+    def _null_error_summaries(self):
+        prog = getattr(self.fn, "prog", None)
+        if prog is None:
+            return {}
+        cache = getattr(prog, "_null_error_cache", None)
+        if cache is None:
+            cache = prog._null_error_cache = {}
+            prog._null_error_busy = True
+            try:
+                for g in list(prog.functions.values()):
+                    eps = [k for k, q in enumerate(g.params) if (q.get("ct") or "").replace("enum ", "") in ("econf_err *",)]
+                    if len(eps) != 1 or not (g.j.get("ret", {}).get("ct") or "").endswith("*") or not g.j.get("cfg"):
+                        continue
+                    ename = g.params[eps[0]]["name"]
+                    gc = g.cfg
+
+                    def bad_return(b, fd, ename=ename, gc=gc):
+                        for n in gc.blocks[b].elems:
+                            if n.k == "ReturnStmt" and not n.j.get("inlined_return") and n.children:
+                                e = n.children[0]
+                                if e.is_null_const():
+                                    maybe = True
+                                else:
+                                    v = fd.get(render(e))
+                                    maybe = v is not True
+                                if maybe and fd.get("*" + ename) is not True:
+                                    return True
+                        return False
+                    wp = gc.feasible_reach(None, lambda lit, b, i: False, lambda a: True, accept=bad_return, init_facts={ename: True})
+                    if wp is None:
+                        cache[g.name] = eps[0]
+            finally:
+                prog._null_error_busy = False
+        if getattr(prog, "_null_error_busy", False):
+            return {}
+        return cache
 
     def must_pass(self, a, b):
         """Does every CONSISTENT path from the entry to node b execute node a first?  (node_dominates, minus
